@@ -239,7 +239,7 @@ func (c *Cholesky) SolveTo(dst *Dense, b Matrix) error {
 
 	dst.reuseAsNonZeroed(bm, bn)
 	if b != dst {
-		dst.Copy(b)
+		dst.copyAllowSelfT(b)
 	}
 	lapack64.Potrs(c.chol.mat, dst.mat)
 	if c.cond > ConditionTolerance {
@@ -793,7 +793,7 @@ func (ch *BandCholesky) SolveTo(dst *Dense, b Matrix) error {
 	}
 	dst.reuseAsNonZeroed(br, bc)
 	if b != dst {
-		dst.Copy(b)
+		dst.copyAllowSelfT(b)
 	}
 	lapack64.Pbtrs(ch.chol.mat, dst.mat)
 	if ch.cond > ConditionTolerance {
@@ -1150,7 +1150,7 @@ func (c *PivotedCholesky) SolveTo(dst *Dense, b Matrix) error {
 
 	dst.reuseAsNonZeroed(bm, bn)
 	if dst != b {
-		dst.Copy(b)
+		dst.copyAllowSelfT(b)
 	}
 
 	// Permute rows of B: D = Pᵀ * B.
